@@ -84,7 +84,7 @@ func (s *Scenario) anyLive() bool {
 	return false
 }
 
-const maxSteps = 6
+const maxSteps = 14
 
 // uni draws an integer uniformly from [a, b]. rapid.IntRange is deliberately biased towards small
 // magnitudes and the bounds, which would distort every weight below; 24 fair coin flips are not.
@@ -157,6 +157,9 @@ func genScenario(rt *rapid.T, i int) *Scenario {
 	}
 	sc.RetryOn = rapid.Bool().Draw(rt, l("retry_on"))
 	sc.NumRetries = uni(rt, l("num_retries"), 0, 4)
+	if pct(rt, l("many_retries"), 6) {
+		sc.NumRetries = uni(rt, l("num_retries_many"), 9, 12) // "0..k retries": a budget beyond the usual handful
+	}
 	sc.ReqTimeout = pct(rt, l("req_timeout"), 15)
 	sc.Warm = rapid.Bool().Draw(rt, l("warm"))
 	if sc.Proto == "bolt" {
